@@ -749,6 +749,9 @@ func (r *runner) steerEviction(before snapshot, added, want int) bool {
 var memo sync.Map
 
 func execLine(line string) string {
+	if strings.HasPrefix(line, "C10 conc ") {
+		return execConc(line)
+	}
 	r, err := parseLine(line)
 	if err != nil {
 		return "bad-op"
@@ -769,6 +772,9 @@ func execLine(line string) string {
 // execRecord runs a freshly generated line, writing the implementation's own
 // eviction choices into it; returns the final line and its answer.
 func execRecord(line string) (string, string) {
+	if strings.HasPrefix(line, "C10 conc ") {
+		return line, execConc(line)
+	}
 	r, err := parseLine(line)
 	if err != nil {
 		return line, "bad-op"
